@@ -152,9 +152,13 @@ proof fn lemma_cdigv2(s: Seq<char>, base: nat)
 	requires s.len() == 2, all_dig(s, base)
 	ensures cdigv(s, base) == cdig(s[0])->0 * base + cdig(s[1])->0
 {
-	reveal_with_fuel(cdigv, 3);
-	assert(s.drop_last().last() == s[0]);
-	assert(s.drop_last().drop_last().len() == 0);
+	let s1 = s.drop_last();
+	assert(s1.len() == 1 && s1.last() == s[0] && s.last() == s[1]);
+	assert(is_dig(s[0], base) && is_dig(s[1], base));
+	assert(cdigv(s1.drop_last(), base) == 0);
+	assert(cdigv(s1, base) == cdigv(s1.drop_last(), base) * base + cdig(s[0])->0);
+	assert(0 * base == 0) by (nonlinear_arith);
+	assert(cdigv(s, base) == cdigv(s1, base) * base + cdig(s[1])->0);
 }
 
 // ---- identifier class and the eleven integer suffixes -----------------------------------------------
@@ -174,3 +178,109 @@ pub open spec fn suffix_type(s: Seq<char>) -> Option<ValueType> {
 	else { None }
 }
 pub open spec fn is_suffix(s: Seq<char>) -> bool { suffix_type(s) is Some }
+
+// ---- C09: integer literals -----------------------------------------------------------------------------
+// number of digits of the base in s (the `_` separators and anything else do not count)
+pub open spec fn cdigcount(s: Seq<char>, base: nat) -> nat
+	decreases s.len()
+{
+	if s.len() == 0 { 0 } else { cdigcount(s.drop_last(), base) + (if is_dig(s.last(), base) { 1nat } else { 0nat }) }
+}
+proof fn lemma_cdig_push(s: Seq<char>, c: char, base: nat)
+	ensures
+		cdigv(s.push(c), base) == (if is_dig(c, base) { cdigv(s, base) * base + cdig(c)->0 } else { cdigv(s, base) }),
+		cdigcount(s.push(c), base) == cdigcount(s, base) + (if is_dig(c, base) { 1nat } else { 0nat }),
+{
+	assert(s.push(c).drop_last() =~= s);
+	assert(s.push(c).last() == c);
+}
+proof fn lemma_sub_push(s: Seq<char>, a: int, p: int)
+	requires 0 <= a <= p < s.len()
+	ensures s.subrange(a, p + 1) =~= s.subrange(a, p).push(s[p])
+{ }
+// length of the run of digits of the base and `_` separators starting at p; of identifier characters starting at p
+pub open spec fn numrun(s: Seq<char>, p: int, base: nat) -> int
+	decreases s.len() - p
+{
+	if 0 <= p < s.len() && (is_dig(s[p], base) || s[p] == '_') { 1 + numrun(s, p + 1, base) } else { 0 }
+}
+pub open spec fn idrun(s: Seq<char>, p: int) -> int
+	decreases s.len() - p
+{
+	if 0 <= p < s.len() && ident_cont(s[p]) { 1 + idrun(s, p + 1) } else { 0 }
+}
+// the token denoted by digits of value v (written in base 10 when `naked`) followed by the suffix text sfx:
+// beyond 128 bits E140, no suffix: the plain literal, one of the eleven suffixes: the suffixed literal, else E141
+pub open spec fn int_token(v: nat, sfx: Seq<char>, naked: bool) -> Result<Token, Error> {
+	if v > u128::MAX { Err(Error::InvalidIntegerLength) }
+	else if sfx.len() == 0 { if naked { Ok(Token::NakedDecimal(v as u128)) } else { Ok(Token::BitInteger(v as u128)) } }
+	else { match suffix_type(sfx) { Some(t) => Ok(Token::SuffixedInteger { value: v as u128, suffix_type: t }), None => Err(Error::InvalidIntegerTypeSuffix) } }
+}
+// [1-9][0-9_]*[a-zA-Z0-9_]* starting at lo
+pub open spec fn dec_token(s: Seq<char>, lo: int) -> Result<Token, Error> {
+	let dend = lo + numrun(s, lo, 10);
+	let send = dend + idrun(s, dend);
+	int_token(cdigv(s.subrange(lo, dend), 10), s.subrange(dend, send), true)
+}
+pub open spec fn dec_token_end(s: Seq<char>, lo: int) -> int { lo + numrun(s, lo, 10) + idrun(s, lo + numrun(s, lo, 10)) }
+// 0 | 0x[0-9a-fA-F_]* | 0b[01_]*, then [a-zA-Z0-9_]*, starting at lo.  None: `0x` / `0b` without any digit (not specified here)
+pub open spec fn zero_base(s: Seq<char>, lo: int) -> nat {
+	if lo + 1 < s.len() && s[lo + 1] == 'x' { 16 } else if lo + 1 < s.len() && s[lo + 1] == 'b' { 2 } else { 0 }
+}
+pub open spec fn zero_token(s: Seq<char>, lo: int) -> Option<Result<Token, Error>> {
+	let base = zero_base(s, lo);
+	if base == 0 {
+		let send = lo + 1 + idrun(s, lo + 1);
+		Some(int_token(0, s.subrange(lo + 1, send), true))
+	} else {
+		let dend = lo + 2 + numrun(s, lo + 2, base);
+		let send = dend + idrun(s, dend);
+		if cdigcount(s.subrange(lo + 2, dend), base) == 0 { None }
+		else { Some(int_token(cdigv(s.subrange(lo + 2, dend), base), s.subrange(dend, send), false)) }
+	}
+}
+pub open spec fn zero_token_end(s: Seq<char>, lo: int) -> int {
+	let base = zero_base(s, lo);
+	if base == 0 { lo + 1 + idrun(s, lo + 1) } else { lo + 2 + numrun(s, lo + 2, base) + idrun(s, lo + 2 + numrun(s, lo + 2, base)) }
+}
+// value part of a literal starting with 0, once its digits have been read up to dend: the value of the digits, or E140 beyond 128 bits
+// (nothing is said about `0x` / `0b` without digits)
+pub open spec fn zv_ok(value: Result<u128, Error>, s: Seq<char>, lo: int, dend: int) -> bool {
+	let base = zero_base(s, lo);
+	if base == 0 { value == Ok::<u128, Error>(0u128) }
+	else if cdigcount(s.subrange(lo + 2, dend), base) == 0 { true }
+	else {
+		let v = cdigv(s.subrange(lo + 2, dend), base);
+		match value { Ok(x) => x == v, Err(e) => e is InvalidIntegerLength && v > u128::MAX }
+	}
+}
+
+// ---- C14: the whole file (lex) ---------------------------------------------------------------------------
+// all tokens so far: spans well formed and ending at or before `upto`, spans increasing and never overlapping,
+// line numbers between 1 and `lines` (at least 1 for the placeholder of an empty file) and never decreasing
+pub open spec fn file_ok(t: Seq<LexedToken>, upto: int, lines: int) -> bool {
+	&&& forall|k: int| 0 <= k < t.len() ==> (#[trigger] t[k]).location.span.start <= t[k].location.span.end <= upto && 1 <= t[k].location.line_number <= (if lines >= 1 { lines } else { 1 })
+	&&& forall|j: int, k: int| 0 <= j < k < t.len() ==> (#[trigger] t[j]).location.span.end <= (#[trigger] t[k]).location.span.start && t[j].location.line_number <= t[k].location.line_number
+}
+proof fn lemma_file_step(t0: Seq<LexedToken>, t: Seq<LexedToken>, off: int, i: int, len: int)
+	requires file_ok(t0, off, i), toks_ok(t, t0, off, (1 + i) as usize, off + len), 0 <= i, 1 + i <= usize::MAX, 0 <= len,
+	ensures file_ok(t, off + len + 1, i + 1),
+{
+	assert forall|k: int| 0 <= k < t0.len() implies #[trigger] t[k] == t0[k] by {
+		assert(t.subrange(0, t0.len() as int)[k] == t[k]);
+	}
+}
+proof fn lemma_sumlen_mono(lines: Seq<&str>, a: int, b: int)
+	requires 0 <= a <= b
+	ensures sumlen(lines, a) <= sumlen(lines, b)
+	decreases b - a
+{
+	if a < b { lemma_sumlen_mono(lines, a, b - 1); }
+}
+proof fn lemma_sumlen_ge(lines: Seq<&str>, n: int)
+	requires 0 <= n
+	ensures sumlen(lines, n) >= n
+	decreases n
+{
+	if n > 0 { lemma_sumlen_ge(lines, n - 1); }
+}
